@@ -2,7 +2,7 @@
 import json
 import os
 
-from rules import hirq, mirq, apimisuse
+from rules import hirq, mirq, apimisuse, visit
 from rules.core import walk, norm_path, AnchorMissing, VERIF
 from props import c05
 
@@ -20,7 +20,10 @@ EXPLANATION = (
     "DuplicateDeclaration* error, found_container_1 builds the three Cyclical* errors exactly when the container comes "
     "to contain itself, use_constant builds NotACompileTimeConstant, align_struct WordSizeMismatch, with their codes; "
     "R5 ordering-sensitive state is deterministic: no hash-container iteration in scoper, typer, expander and "
-    "Compiler. Metamorphic equality under permutation is not decided.")
+    "Compiler; R6 the containment relation behind cycle detection and the depth sort is complete: in found_container every "
+    "by-value component of every ValueType variant (element types, named lengths, struct/word names; pointers and views "
+    "are the two reviewed exceptions) reaches found_container/found_container_1, constant types and member types are "
+    "passed to it, and names used in a constant initialiser go through use_containee. Metamorphic equality under permutation is not decided.")
 
 VR = "alpha::scoper::variable_references::"
 
@@ -190,6 +193,64 @@ def r5_determinism(run, F):
     run.ob("R5-NO-HASH-ORDER", "scan", scanned > 200, "src/alpha", "%d bodies scanned" % scanned)
 
 
+def r6_containment(run, F):
+    """T2 on the containment relation that feeds cycle detection and the depth sort: every type that a constant or a
+    structure member embeds by value must reach found_container / found_container_1."""
+    C = F.lib
+    AN = VR + "Analyzer::"
+    fc = F.body(AN + "found_container")
+    vt = C.adts.get("alpha::value_type::ValueType")
+    run.require(vt is not None, "ValueType not found")
+    ms = [m for m in hirq.matches(fc["hir"]) if len(m["arms"]) >= 20]
+    run.require(len(ms) == 1, "found_container: the match over ValueType was not found (%d candidates)" % len(ms))
+
+    def is_trav(c):
+        return c in (AN + "found_container", AN + "found_container_1")
+    exceptions = {
+        "ValueType::Pointer.deref_type": "a pointer member does not embed its pointee (indirection is how recursive structures are written)",
+        "ValueType::View.deref_type": "a view is passed by reference; it does not embed the viewed value",
+    }
+
+    def rep(key, ok, where, detail, sample):
+        run.ob("R6-CONTAINMENT-VISITS", key, ok, where,
+               detail + ": a structure or constant embedded through it is missing from the containment relation "
+               "(no E413/E415/E416 for a cycle through it; the depth sort may place the container first)", sample)
+    rel = {"alpha::value_type::ValueType", "alpha::common::Identifier"}
+    n = visit.check_match(F, C, fc, ms[0], vt, "ValueType", rel, is_trav, rep, exceptions, subst={"I": "alpha::common::Identifier"})
+    run.require(n >= 12, "too few containment obligations (%d)" % n)
+    # callers: constant types, member types, and names used in a constant's initialiser
+    mw = F.body(VR + "{Member}::analyze_wellfoundedness")
+    cs = [c for c in hirq.calls(mw["hir"]) if hirq.callee(c) == AN + "found_container"]
+    ok = any(any(x.get("k") == "Field" and x.get("name") == "value_type" for a in c.get("a", []) for x in walk(a)) for c in cs)
+    run.ob("R6-CONTAINMENT-VISITS", "Member.value_type", ok, F.where(mw), "the member's type must be passed to found_container")
+    decl = [b for b in C.bodies.values() if b.get("impl_trait") == VR + "Analyzable" and norm_path(b.get("impl_self") or "") == "alpha::common::Declaration"
+            and "{closure" not in b["npath"]]
+    run.require(len(decl) == 1, "variable_references: impl Analyzable for Declaration not found")
+    d = decl[0]
+    dadt = C.adts["alpha::common::Declaration"]
+    dm = [m for m in hirq.matches(d["hir"]) if len(m["arms"]) >= 5]
+    run.require(dm, "Declaration::analyze: match not found")
+
+    def rep2(key, ok, where, detail, sample):
+        if key in ("Declaration::Constant.value_type", "Declaration::Structure.members"):
+            run.ob("R6-CONTAINMENT-VISITS", key, ok, where, detail + " (must reach found_container / analyze_wellfoundedness)", sample)
+    visit.check_match(F, C, d, dm[0], dadt, "Declaration", visit.type_closure(C, {"alpha::value_type::ValueType"}),
+                      lambda c: c in (AN + "found_container", VR + "{Member}::analyze_wellfoundedness"), rep2)
+    got = [o for o in run.obligations if o["key"].endswith(("Declaration::Constant.value_type", "Declaration::Structure.members")) and o["rule"] == "R6-CONTAINMENT-VISITS"]
+    run.require(len(got) >= 2 or run.replay_filter is not None, "constant/structure containment obligations not generated")
+    # names used while analysing a constant's initialiser are containees of that constant
+    uc = F.body(AN + "use_containee")
+    ok = AN + "found_container_1" in [hirq.callee(c) for c in hirq.calls(uc["hir"])]
+    run.ob("R6-CONTAINMENT-VISITS", "use_containee", ok, F.where(uc), "use_containee must record the containee through found_container_1")
+    for fn in ("use_constant", "use_struct"):
+        try:
+            b = F.body(AN + fn)
+        except AnchorMissing:
+            continue
+        ok = AN + "use_containee" in [hirq.callee(c) for c in hirq.calls(b["hir"])]
+        run.ob("R6-CONTAINMENT-VISITS", fn, ok, F.where(b), "%s must go through use_containee" % fn)
+
+
 def check(run):
     F = run.facts("B")
     r1_order(run, F)
@@ -197,3 +258,4 @@ def check(run):
     r3_extern(run, F)
     r4_emission(run, F)
     r5_determinism(run, F)
+    r6_containment(run, F)
